@@ -3,10 +3,11 @@
    Proofs/GlobalLayoutOrderProofs.v.
 
    What the theorems carry: the cache *protocol* of Pipeline::exec / compile_internal is
-   transparent exactly when the copy the cache makes is faithful (and the key hash is
-   injective on the sources used, stage names are distinct, every stage in front of a
-   cacheable stage is stateless); with the copy the code makes -- Heap::clone() is
-   Heap::new() -- it is not (refuted).  Byte-for-byte determinism across processes is carried
+   transparent when the copy the cache makes is faithful on the outputs it accepts (and the
+   key hash is injective on the sources used, stage names are distinct, every stage in front
+   of a cacheable stage is stateless).  The copy the code makes -- Heap::clone() is
+   Heap::new() -- is not faithful on Compiled outputs; since the repair of KF-C16-1/2 those
+   are never cached, and transparency is stated for the code's actual clone.  Byte-for-byte determinism across processes is carried
    for build_global_layout (the one place where the compiler walks a HashMap to produce
    output); the rest of codegen is explored by the multi-process tie, not proved. *)
 From Aelys Require Import Base.Tactics Extracted.PipelineStages Model.PipelineCache Model.GlobalLayoutOrder
@@ -16,78 +17,103 @@ Local Open Scope string_scope.
 Local Open Scope list_scope.
 
 (* One pipeline object serving any history of compile/execute requests gives the results of a
-   fresh pipeline per request -- if cloning a stage output is faithful. *)
-Theorem cache_transparent_if_clone_faithful :
-  forall (src out err st : Type) (hash : src -> N) (inject : src -> out) (clone_out : out -> out)
+   fresh pipeline per request -- if cloning is faithful on the outputs the cache accepts. *)
+Theorem cache_transparent :
+  forall (src out err st : Type) (hash : src -> N) (inject : src -> out) (clone_out : out -> out) (cache_ok : out -> bool)
          (is_value is_compiled : out -> bool) (e_value_as_input e_missing e_not_compiled : err)
          (X : list src),
     (forall x y, In x X -> In y X -> hash x = hash y -> x = y) ->
-    (forall o, clone_out o = o) ->
+    (forall o, cache_ok o = true -> clone_out o = o) ->
     forall ps : list (pstage out err), NoDup (map (p_name out err) ps) ->
     forall tail : list (stage out err st),
       Forall (fun t => s_cacheable out err st t = false) tail ->
       Forall (state_blind out err st) tail ->
       forall (s0 : st) (history : list (request src)),
         Forall (fun r => In (req_src r) X) history ->
-        exec_cached src out err st hash inject clone_out is_value is_compiled e_value_as_input e_missing e_not_compiled
+        exec_cached src out err st hash inject clone_out cache_ok is_value is_compiled e_value_as_input e_missing e_not_compiled
                     (map (lift out err st) ps ++ tail) s0 history
-        = exec_fresh src out err st hash inject clone_out is_value is_compiled e_value_as_input e_missing e_not_compiled
+        = exec_fresh src out err st hash inject clone_out cache_ok is_value is_compiled e_value_as_input e_missing e_not_compiled
                      (map (lift out err st) ps ++ tail) s0 history.
 Proof. exact cached_eq_fresh. Qed.
 
 (* The cache alone (same stages, same VM, cache cleared before every request): no assumption
    on the uncacheable stages is needed. *)
 Theorem cache_transparent_same_stage_state :
-  forall (src out err st : Type) (hash : src -> N) (inject : src -> out) (clone_out : out -> out)
+  forall (src out err st : Type) (hash : src -> N) (inject : src -> out) (clone_out : out -> out) (cache_ok : out -> bool)
          (is_value is_compiled : out -> bool) (e_value_as_input e_missing e_not_compiled : err)
          (X : list src),
     (forall x y, In x X -> In y X -> hash x = hash y -> x = y) ->
-    (forall o, clone_out o = o) ->
+    (forall o, cache_ok o = true -> clone_out o = o) ->
     forall ps : list (pstage out err), NoDup (map (p_name out err) ps) ->
     forall tail : list (stage out err st),
       Forall (fun t => s_cacheable out err st t = false) tail ->
       forall (s0 : st) (history : list (request src)),
         Forall (fun r => In (req_src r) X) history ->
-        exec_cached src out err st hash inject clone_out is_value is_compiled e_value_as_input e_missing e_not_compiled
+        exec_cached src out err st hash inject clone_out cache_ok is_value is_compiled e_value_as_input e_missing e_not_compiled
                     (map (lift out err st) ps ++ tail) s0 history
         = exec_uncached src out err st inject is_value is_compiled e_value_as_input e_missing e_not_compiled
                         (map (lift out err st) ps ++ tail) s0 history.
 Proof. exact cached_eq_uncached. Qed.
 
+(* The clone the code makes (Heap::clone() = Heap::new(), so a copied Compiled output loses its
+   heap) is NOT faithful in general, but it is faithful on everything the cache accepts ... *)
+Theorem clone_of_the_code_is_not_faithful : exists o, clone_code o <> o.
+Proof. exact clone_code_not_faithful. Qed.
+
+Theorem clone_of_the_code_is_faithful_where_cached : forall o : cout, c_cache_ok o = true -> clone_code o = o.
+Proof. exact clone_code_faithful_on_cached. Qed.
+
+(* ... hence transparency for the code's actual clone, with no faithfulness hypothesis *)
+Theorem cache_transparent_for_the_codes_clone :
+  forall (st : Type) (X : list N) (ps : list (pstage cout cerr)), NoDup (map (p_name cout cerr) ps) ->
+    forall tail : list (stage cout cerr st),
+      Forall (fun t => s_cacheable cout cerr st t = false) tail ->
+      Forall (state_blind cout cerr st) tail ->
+      forall (s0 : st) (history : list (request N)),
+        Forall (fun r => In (req_src r) X) history ->
+        exec_cached N cout cerr st (fun x => x) c_inject clone_code c_cache_ok c_is_value c_is_compiled EValueAsInput EMissing ENotCompiled
+                    (map (lift cout cerr st) ps ++ tail) s0 history
+        = exec_fresh N cout cerr st (fun x => x) c_inject clone_code c_cache_ok c_is_value c_is_compiled EValueAsInput EMissing ENotCompiled
+                     (map (lift cout cerr st) ps ++ tail) s0 history.
+Proof.
+  intros st X ps ND tail Hu Hb s0 history Hh.
+  exact (cached_eq_fresh N cout cerr st (fun x => x) c_inject clone_code c_cache_ok c_is_value c_is_compiled
+           EValueAsInput EMissing ENotCompiled X (fun x y _ _ E => E) clone_code_faithful_on_cached ps ND tail Hu Hb s0 history Hh).
+Qed.
+
 (* the hypotheses are met by a concrete pipeline and a history with repeated and interleaved
    requests, with non-trivial results *)
 Example cache_transparent_nonvacuous :
-  (forall o : cout, (fun o => o) o = o) /\
+  (forall o : cout, (fun _ : cout => true) o = true -> (fun o => o) o = o) /\
   NoDup (map (p_name cout cerr) nv_ps) /\
   Forall (fun t => s_cacheable _ _ _ t = false) [nv_vm] /\
   Forall (state_blind cout cerr cst) [nv_vm] /\
   (forall x y : N, In x [0%N; 1%N] -> In y [0%N; 1%N] -> (fun x => x) x = (fun x => x) y -> x = y) /\
   Forall (fun r => In (req_src r) [0%N; 1%N]) nv_hist /\
-  map res_payload (exec_cached N cout cerr cst (fun x => x) c_inject (fun o => o) c_is_value c_is_compiled
+  map res_payload (exec_cached N cout cerr cst (fun x => x) c_inject clone_code c_cache_ok c_is_value c_is_compiled
                      EValueAsInput EMissing ENotCompiled nv_stages mini_s0 nv_hist)
     = [Some 207%N; Some 208%N; Some 207%N; Some 2%N; Some 207%N].
 Proof. exact nonvacuous_instance. Qed.
 
-(* REFUTED for the code's clone (Heap::clone() = Heap::new()): executing a source whose
-   compiled unit owns heap constants twice through one pipeline differs from a fresh pipeline *)
-Theorem cache_drops_heap_refuted :
-  exists history : list (request N),
-    map res_payload (mini_cached history) <> map res_payload (mini_fresh history).
-Proof. exists [RqExec 0%N; RqExec 0%N]. exact cache_drops_heap_exec. Qed.
+(* regression of the witnesses of KF-C16-1 (repaired): executing a source whose compiled unit owns
+   heap constants three times, and compiling it twice, through one pipeline = fresh pipelines *)
+Theorem cache_keeps_heap :
+  map res_payload (mini_cached [RqExec 0%N; RqExec 0%N; RqExec 0%N]) = map res_payload (mini_fresh [RqExec 0%N; RqExec 0%N; RqExec 0%N]) /\
+  map res_payload (mini_cached [RqCompile 0%N; RqCompile 0%N]) = [Some 2%N; Some 2%N].
+Proof. exact (conj cache_keeps_heap_exec cache_keeps_heap_compile). Qed.
 
-Theorem cache_drops_heap_compile_refuted :
-  map res_payload (mini_cached [RqCompile 0%N; RqCompile 0%N]) = [Some 2%N; Some 0%N] /\
-  map res_payload (mini_fresh [RqCompile 0%N; RqCompile 0%N]) = [Some 2%N; Some 2%N].
-Proof. exact cache_drops_heap_compile. Qed.
-
-Theorem clone_of_the_code_is_not_faithful : exists o, clone_code o <> o.
-Proof. exact clone_code_not_faithful. Qed.
+(* ABOUT THE OLD DEFINITION ONLY (before the repair every output of a cacheable stage was cached):
+   the second result differed.  Kept to show what the insertion test protects against. *)
+Theorem old_protocol_dropped_heap_witness :
+  map res_payload (mini_cached_before_fix [RqExec 0%N; RqExec 0%N]) <> map res_payload (mini_fresh [RqExec 0%N; RqExec 0%N]) /\
+  map res_payload (mini_cached_before_fix [RqCompile 0%N; RqCompile 0%N]) = [Some 2%N; Some 0%N].
+Proof. exact old_protocol_dropped_heap. Qed.
 
 (* ties to the source text (translator output): the clone modelled by clone_code is the one in
    bytecode/src/heap/mod.rs, the standard pipelines have the shape the theorem assumes, and
    compile_internal stops at the stage called "vm" *)
 Theorem model_matches_source :
-  heap_clone_is_empty = true /\ cacheable_stages_stateless = true /\ compile_break_name = "vm" /\
+  heap_clone_is_empty = true /\ compiled_outputs_are_cached = false /\ cacheable_stages_stateless = true /\ compile_break_name = "vm" /\
   shape_ok standard_stages = true /\ shape_ok compilation_stages = true /\ shape_ok modules_stages = true.
 Proof. vm_compute. repeat split. Qed.
 
